@@ -177,7 +177,15 @@ theorem model_linearSolve_sound_fv (form : Saddle.Form) (shape : List Nat) (h : 
   intro e he
   exact fv_divergence_colsum_zero shape h e (by omega)
 
-/-! ### dispatch (generated acceptance matrix) -/
+open Darsia.SaddleBridge in
+/-- non-vacuity of `model_linearSolve_sound_fv`: the 1-D grid with two cells of size 1 (builder b's `divEntry`), face weight 2,
+source `(1, −1)`, cell 1 pinned: all three formulations of the model return `[1 | 2 0 | 0]` -/
+example : ∀ form ∈ [Saddle.Form.full, .fluxReduced, .pressure],
+    Saddle.linearSolve form (Saddle.assembleFull #[2] (fvDiv [2] [1]) 1) (Saddle.assembleFull #[2] (fvDiv [2] [1]) 1)
+      #[0, 1, -1, 0] 1 1 none = .ok #[1, 2, 0, 0] := by decide +kernel
+
+/-! ### dispatch (generated acceptance matrix; `decide` over a table re-tabulated from the running code = an exhaustive
+observation of the dispatch on a 2×2 grid in Lean form, not a theorem about the source) -/
 
 /-- every formulation named in the documentation constructs and completes a `linear_solve` with the
 default (direct) back-end -/
